@@ -163,6 +163,7 @@ def main(chk: C.Check, build_: C.Build) -> None:
     outcomes = {"ok": 0, "lerr": 0, "lerr_eoi": 0, "lerr_notoken": 0, "pyexc": 0}
     kinds_seen: set[str] = set()
     nontrivial = 0
+    ast_nodes = 0
     items: list[dict[str, Any]] = []
     samples = []
     shared = {b for b, k in cs.uses().items() if k >= 3}
@@ -192,6 +193,12 @@ def main(chk: C.Check, build_: C.Build) -> None:
         if out[0] == "pyexc":
             chk.finding(f"PyExc {out[1]} @ {out[2]}", f"tokenize raised {out[1]} in {out[2]}",
                         {"source": src, "shorthand_indexes": sh})
+        if out[0] == "ok" and not sh and it[5] in ("corpus", "generated"):
+            cnt, afail = L.ast_positions(src)
+            ast_nodes += cnt
+            if afail:
+                chk.finding("oracle:ast-position", afail,
+                            {"source": src, "how": "Environment().from_string(source); walk nodes and expressions"})
         s_term = cs.s_term(it, shared)
         model = f"lex {C.cbool(sh)} {s_term}"
         try:
@@ -225,7 +232,7 @@ def main(chk: C.Check, build_: C.Build) -> None:
                  "non-trivial = the source produced markup other than a single content token, or a syntax error "
                  "(i.e. the scanner left lex_markup's CONTENT branch)"),
         "samples": samples,
-        "distribution": {"families": fam, "outcomes": outcomes, "bases": len(cs.bases),
+        "distribution": {"families": fam, "outcomes": outcomes, "bases": len(cs.bases), "ast_nodes_and_expressions_checked": ast_nodes,
                          "markup_token_classes_seen": sorted(kinds_seen)},
         "alphabet": "all of Unicode for the \\s/\\w/linebreak tables (compared exhaustively with CPython); generated sources use ASCII plus "
                     "U+00A0 U+00E9 U+00FC U+00EF U+2003 U+2028 U+0085 U+001C U+000B U+65E5 U+672C U+1F600 and whatever the corpus contains",
